@@ -46,7 +46,7 @@ theorem mark_sbox_ring_diverges (n : Nat) (hn : 0 < n) (fuel : Nat) :
   · intro s ⟨i, hi, hs⟩
     subst hs
     refine ⟨{ work := [(i + 1) % n], vis := [] }, ?_, (i + 1) % n, Nat.mod_lt _ hn, rfl⟩
-    simp [wlStep, markTracked, ring_kind .sbox n i hi, ring_sons .sbox (by decide) n i hi, Cfg.current]
+    simp [wlStep, markTracked, ring_kind .sbox n i hi, ring_sons .sbox (by decide) n i hi, Cfg.current, Cfg.legacy]
   · exact ⟨0, hn, rfl⟩
 
 /-- the cycle collector (display) on a ring of strong boxes -/
@@ -109,7 +109,7 @@ theorem mark_dag_rounds (n : Nat) : ∀ (i : Nat), i ≤ n → ∀ (fuel : Nat) 
     simp only [iter]
     have hstep : wlStep (dag n) (markTracked Cfg.current (dag n)) { work := (i + 1) :: rest, vis := vis } =
         .next { work := i :: i :: rest, vis := vis } := by
-      simp [wlStep, markTracked, Graph.kind, Graph.sons, hn, Cfg.current]
+      simp [wlStep, markTracked, Graph.kind, Graph.sons, hn, Cfg.current, Cfg.legacy]
     rw [hstep]
     simp only
     rw [ih (by omega), ih (by omega)]
